@@ -21,6 +21,7 @@ def _configs(tier):
                 continue
             out.append((f"Maize|method={method}|iwc={iwc}", dict(crop="Maize", method=method, iwc=iwc, bunds=False)))
     out.append(("Maize|method=5|bunds", dict(crop="Maize", method=5, iwc="FC", bunds=True)))
+    out.append(("Maize|method=0|iwc=FC|water-table", dict(crop="Maize", method=0, iwc="FC", bunds=False, gw=1.5)))
     if tier != "quick":
         out.append(("Wheat|method=1|iwc=FC", dict(crop="Wheat", method=1, iwc="FC", bunds=False)))
     return out
@@ -43,8 +44,9 @@ def _model(cfg, start, end):
         irr = IrrigationManagement(irrigation_method=0)
     fm = FieldMngt(bunds=True, z_bund=0.1, bund_water=20) if cfg["bunds"] else FieldMngt()
     wf, plant = ("tunis_climate.txt", "10/01") if cfg["crop"] == "Wheat" else ("champion_climate.txt", "05/01")
-    return AquaCropModel(start, end, weather(wf), Soil("SandyLoam"), Crop(cfg["crop"], planting_date=plant), InitialWaterContent(value=[cfg["iwc"]]),
-                         irrigation_management=irr, field_management=fm)
+    gw = GroundWater(water_table="Y", dates=[start], values=[cfg["gw"]]) if cfg.get("gw") else None
+    return AquaCropModel(start, end, weather(wf), Soil("ClayLoam" if cfg.get("gw") else "SandyLoam"), Crop(cfg["crop"], planting_date=plant),
+                         InitialWaterContent(value=[cfg["iwc"]]), irrigation_management=irr, field_management=fm, groundwater=gw)
 
 
 SKIP = {"th", "thini", "th_fc_Adj", "aer_days_comp", "time_step_counter"}
